@@ -40,6 +40,9 @@ def run(ctx):
     else:
         small = gen(ctx, "small.ndjson", {"MaxVersions = 3": "MaxVersions = 2"})  # exhaustive for <= 2 versions
         results.append(vlib.replay_sharded(ctx, "merge", small, "small", ["--leaf", "65536", "--seed", str(ctx.seed)], shards=12))
+        # three splits writing ONE path (every content pattern, every order of upload times, every arrival order)
+        one = gen(ctx, "onepath.ndjson", {'MPaths = {"p", "d/q"}': 'MPaths = {"p"}'})
+        results.append(vlib.replay_sharded(ctx, "merge", one, "one", ["--leaf", "65536", "--seed", str(ctx.seed)], shards=12))
         samp = gen(ctx, "samp.ndjson", {"Sample = FALSE": "Sample = TRUE", "MaxVersions = 3": "MaxVersions = 5",
                                         'MPaths = {"p", "d/q"}': 'MPaths = {"p", "d/q", ".env", "env"}',
                                         'Hashes = {"h1", "h2"}': 'Hashes = {"h1", "h2", "h3"}'}, simulate="num=500")
